@@ -529,6 +529,18 @@ impl Check for C14 {
                 }
                 ctx.stats.probe("bgzf_drop_without_finish_checked", 1);
             }
+            // ... and a writer dropped over a failing sink (after a failed call, or failing only
+            // inside Drop): Drop has nobody to report to and the statement asks nothing of it, so a
+            // panic there is only counted (probe), not judged
+            for ops in histories.iter().take(2) {
+                for k in 0..8u64 {
+                    ctx.stats.evaluations += 1;
+                    let wp = WritePlan::with_fault(Fault::FailCall { k, kind: EKind::ALL[(k % 5) as usize], sticky: k % 2 == 0 });
+                    let panicked = catch(|| run_history(None, payload, ops, End::Drop, wp.clone())).is_err();
+                    ctx.stats.probe_if("bgzf_drop_over_failing_sink_panicked", panicked);
+                    ctx.stats.probe("bgzf_drop_over_failing_sink", 1);
+                }
+            }
         }
         let plans: Vec<WritePlan> = match &p.faults {
             Faults::Enumerate { seed } => {
